@@ -26,13 +26,18 @@ def handleSymm (args : List String) : Verdict :=
     let V ← mat
     let kinds := ["diagdom", "clustered", "degenerate", "negative", "wide", "decoupled", "upstream"]
     let tag := s!"symm-{kinds.getD kind "?"}-{corr}-{upd}{if mss > 0 then "-restart" else ""}{if itmax < 50 then "-fewiter" else ""}"
-    if status == "error" then pure { tag := "symm-exception-" ++ kinds.getD kind "?" } else
+    -- the solver threw (Gram-Schmidt found linearly dependent correction vectors): it "says so" — except on diagonally dominant matrices
+    -- (kinds diagdom and upstream) with the full iteration budget and at most size/4 roots, where the property promises success
+    let dominant := (kind == 0 || kind == 6) && itmax == 50 && neigen * 4 ≤ A.length
+    if status == "error" then
+      pure { agree := true, propOk := !dominant, tag := "symm-exception-" ++ kinds.getD kind "?" ++ (if dominant then "" else "-unjudged"),
+             msg := s!"DAVIDSON-DIAGDOM-EXCEPTION the solver threw on a diagonally dominant {A.length}x{A.length} matrix ({neigen} roots, {corr}, {upd}, tol {showR tol}, matrix kind {kinds.getD kind "?"}) instead of reporting success" } else
     let cols := transpose V
     let scale := 1 + maxAbsM A
     if status == "noconv" then
       -- every root handed out as non-zero must have passed the residual test
       let bad := (ev.zip cols).zipIdx.find? fun ((l, v), _) => !(maxAbs v == 0 && l == 0) && !(residualSq A l v < tol * tol * (1 + 1 / 1000))
-      let ddFail := kind == 0 && itmax == 50
+      let ddFail := dominant
       pure { agree := true, propOk := bad.isNone && !ddFail, tag := tag ++ "-noconv",
              msg := if ddFail then s!"DAVIDSON-DIAGDOM-NOCONV no convergence on a diagonally dominant {A.length}x{A.length} matrix within {itmax} iterations ({corr}, {upd}, tol {showR tol})"
                     else s!"DAVIDSON-UNCONVERGED-ROOT-RETURNED root {(bad.map (·.2)).getD 0} is non-zero although its residual is above the tolerance" } else
